@@ -126,12 +126,16 @@ type Exec struct {
 	PanicTr   string
 	Trace     []string
 	KeepTrace bool
-	Leaked    []string // non-daemon threads alive when the body returned and nothing was enabled
+	Leaked    []string // non-daemon threads blocked for ever at the end
+	MainDone  bool     // thread 0 had returned when the execution ended
 
 	watch *time.Timer
 }
 
 var ex *Exec // nil => passthrough
+
+// Flavour names the build ("plain", "instr", "instr-w2", ...); set with -ldflags -X.
+var Flavour = "unset"
 
 type abortT struct{}
 
@@ -166,6 +170,7 @@ func Run(body func(), c Chooser, keepTrace bool, maxSteps int) *Exec {
 	e.start(t0, false)
 	e.waitBack() // t0 reached first point or exited
 	e.loop()
+	e.MainDone = t0.done
 	// abort leftovers
 	e.aborting = true
 	for _, t := range e.threads {
@@ -386,6 +391,7 @@ func (e *Exec) loop() {
 			}
 			if e.Deadlock {
 				e.DeadDump = e.Dump()
+				e.Leaked = e.liveThreads()
 			}
 			return
 		}
@@ -894,8 +900,11 @@ func (e *Exec) Dump() string {
 	return sb.String()
 }
 
-// LiveThreads lists the threads that have not exited (name and pending op), excluding daemons.
-func (e *Exec) LiveThreads() []string {
+// LiveThreads lists the threads that were blocked for ever when the execution ended (name and
+// pending op), excluding daemons.
+func (e *Exec) LiveThreads() []string { return e.Leaked }
+
+func (e *Exec) liveThreads() []string {
 	var r []string
 	for _, t := range e.threads {
 		if !t.done && !t.daemon {
